@@ -534,10 +534,13 @@ func (es *echState) dialFunc(p *EchPlan) func(context.Context, string, string, *
 			c.endT = int64(time.Since(es.rs.t0))
 			c.endSeq = es.rs.seq.Add(1)
 			c.ended = true
-			if conn != nil {
-				es.rs.conns = append(es.rs.conns, conn)
-			}
 			es.mu.Unlock()
+			if conn != nil {
+				// (two call states may share one raceState: its own lock)
+				es.rs.mu.Lock()
+				es.rs.conns = append(es.rs.conns, conn)
+				es.rs.mu.Unlock()
+			}
 		})
 		if panicked {
 			es.mu.Lock()
